@@ -9,7 +9,8 @@ correspond  (1) recorded traces of successful bundles replayed by the full model
             direct as engine.out_actions holds at the end.
 search      an independent classifier on the implementation: in bundles of record edits on documents with formulas,
             summary tables and empty columns, stored actions that maintain summary rows, write only formula results,
-            or convert an empty column (ModifyColumn, its metadata updates, the default fill) must be non-direct;
+            or convert an empty column (ModifyColumn, its metadata updates, the default fill) must be non-direct
+            (the witness of the repaired finding C31-summary-ref-cleanup-direct runs first);
             every visible effect of a requested record edit on a user table must be carried by a direct stored action
             on that table; len(stored) == len(direct) for every bundle (for failing bundles on engine.out_actions).
 """
@@ -312,9 +313,24 @@ def replay(ctx, w):
   return None
 
 
+# witnesses of repaired findings: run first on every run (regression corpus)
+CORPUS = [
+  ('C31-summary-ref-cleanup-direct (fixed by 0419780)',
+   [[['AddTable', 'T', [{'id': 'A', 'type': 'Int', 'isFormula': False}, {'id': 'parent', 'type': 'Ref:T', 'isFormula': False}]]],
+    [['BulkAddRecord', 'T', [None, None, None], {'A': [1, 2, 3], 'parent': [0, 1, 1]}]],
+    [['CreateViewSection', 1, 0, 'record', [3], None]]],
+   [['RemoveRecord', 'T', 1]]),
+]
+
+
 def search(ctx):
   stats = collections.Counter()
   seen = collections.Counter()
+  for name, setup, bundle in CORPUS:
+    issues = run_script(setup, bundle)
+    ctx.count(('corpus', name), nontrivial=True, kind='corpus')
+    for kind, what in issues:
+      ctx.violation(kind, '%s [corpus: %s]' % (what, name), {'setup': setup, 'bundle': bundle})
   for i in range(ctx.n(10, 150)):
     rng = random.Random(ctx.seed * 104729 + i)
     e, gen, setup = setup_doc(rng)
